@@ -113,12 +113,13 @@ PROPS = {
         "anchors": "sm",
         "run": ["EvalProps"], "functional": False,
         "n": {"quick": 300, "thorough": 6000},
-        "level_text": "Theorem C05_consent_monitor_accepts_every_model_trace: for every script (all policy, HTTP, installer, clock, storage answers and "
+        "level_text": "Theorems C05_consent_monitor_accepts_every_model_trace and C05_reboot_only_after_an_install_with_no_failed_app: for every script (all policy, HTTP, installer, clock, storage answers and "
                       "stimuli), configuration, app set and entry point, the trace of the state-machine model is accepted by the executable consent monitor step5 "
                       "(requests only inside a check the policy allowed and carrying exactly its parameters; install only for an approved plan; reboot only after a "
-                      "clean install with reboot_needed = yes and the latest reboot_allowed = yes; negative decisions lead to no request/install/reboot); "
+                      "clean install with reboot_needed = yes and the latest reboot_allowed = yes; negative decisions lead to no request/install/reboot) and by step5b (the reboot-needed "
+                      "question and the wait for the reboot only after an installer answer with no failure among the apps the response offered - judged by the installer's answer, not by the machine's own error events); "
                       "an invalid app set makes run() inert.  The model is tied to the code by trace equality on scripted runs of the real state machine, and the same "
-                      "monitor is run on every implementation trace.",
+                      "monitors are run on every implementation trace.",
         "level_note": "Proved for the model by a trace-Hoare argument over SM.v (Proofs/C05Proof.v), unbounded in script length.  Model = code is sampled. "
                       "Control requests arrive only at the outer waits in this check's executor mode (in-check arrivals: C11).  Pings while waiting to reboot use the fixed "
                       "scheduled-task parameters (DESIGN.md section 6).",
